@@ -29,6 +29,9 @@ pub enum Backoff {
     ExpRandom { init: u64, factor10: u8, cap: Option<u64> },
     /// custom, non-monotone function of the attempt
     Custom,
+    /// fixed_backoff(Duration::MAX) through the logging wrapper: "never retry in my lifetime" -
+    /// after a retryable failure the request is parked for good (no further attempt)
+    Forever,
     /// the same function shifted by this many places (3: the first retry is free, 0 ms, the
     /// later ones are not)
     CustomFrom(u8),
@@ -95,6 +98,7 @@ fn case_strategy(_tier: Tier) -> BoxedStrategy<RetryCase> {
             .prop_map(|(init, factor10, cap)| Backoff::ExpRandom { init, factor10, cap }),
         2 => Just(Backoff::Custom),
         2 => prop_oneof![2 => Just(3u8), 1 => 0u8..8].prop_map(Backoff::CustomFrom),
+        1 => Just(Backoff::Forever),
         1 => prop_oneof![Just(1u32), Just(900u32), 1u32..=999].prop_map(Backoff::FixedMicros),
     ];
     let budget = prop_oneof![
@@ -392,6 +396,10 @@ async fn interp(case: &RetryCase) -> Verdict {
                 log: log.clone(),
             })
         }
+        Backoff::Forever => b.backoff(LogInterval {
+            inner: Arc::new(FnInterval::new(|_k: usize| Duration::MAX)),
+            log: log.clone(),
+        }),
         Backoff::CustomFrom(rot) => {
             let rot = *rot as usize;
             b.backoff(LogInterval {
@@ -644,8 +652,12 @@ async fn interp(case: &RetryCase) -> Verdict {
                     _ => None,
                 });
                 let Some((out, rt)) = resolve else {
+                    let parked_for_good = matches!(case.backoff, Backoff::Forever)
+                        && after.iter().any(|e| matches!(e, Ev::Note { kind: "interval", .. }));
                     if cancelled[i] {
                         any_cancel = true;
+                    } else if parked_for_good {
+                        // the policy said Duration::MAX: waiting for ever is the right thing
                     } else {
                         violations.push(format!("request {i}: never resolved"));
                     }
